@@ -1,3 +1,6 @@
 //go:build !(linux && yieldinst)
 
 package c16
+
+// SetProbeYield is a no-op without the instrumented copy.
+func SetProbeYield(on bool) {}
